@@ -21,6 +21,11 @@ pub struct FsImage {
     pub dirs: BTreeMap<String, Vec<(String, bool)>>,
     pub digest: u64,
     pub bytes: u64,
+    /// per directory: indices (into the sorted listing) of the entries that stand out in the data
+    /// (root-ish names, a script subtag in the name, non-default content): the order profiles
+    /// that displace a few entries pick from these half of the time, because an order dependence
+    /// usually hinges on the few entries that differ from the crowd
+    pub special: BTreeMap<String, Vec<u32>>,
 }
 
 impl FsImage {
@@ -32,6 +37,7 @@ impl FsImage {
             dirs: BTreeMap::new(),
             digest: 0,
             bytes: 0,
+            special: BTreeMap::new(),
         };
         let root = crate_dir.join("data");
         if !root.is_dir() {
@@ -52,6 +58,37 @@ impl FsImage {
             }
         }
         img.digest = d.0;
+        // entries that stand out: by name, or by what the files below them say
+        let mut special = BTreeMap::new();
+        for (dir, children) in &img.dirs {
+            // the byte strings that occur in a minority of this directory's children's files
+            let mut v: Vec<u32> = vec![];
+            for (i, (name, is_dir)) in children.iter().enumerate() {
+                let rootish = matches!(name.as_str(), "und" | "root" | "und-ZZ");
+                let scripted = name.split(|c| c == '-' || c == '_').skip(1).any(|p| p.len() == 4 && p.bytes().all(|b| b.is_ascii_alphabetic()));
+                let mut odd_content = false;
+                if *is_dir {
+                    let prefix = format!("{}/{}/", dir, name);
+                    for (k, content) in img.files.range(prefix.clone()..) {
+                        if !k.starts_with(&prefix) {
+                            break;
+                        }
+                        let c = content.as_slice();
+                        let has = |needle: &[u8]| c.windows(needle.len()).any(|w| w == needle);
+                        if has(b"right-to-left") || has(b"top-to-bottom") {
+                            odd_content = true;
+                        }
+                    }
+                }
+                if rootish || scripted || odd_content {
+                    v.push(i as u32);
+                }
+            }
+            if !v.is_empty() && v.len() < children.len() {
+                special.insert(dir.clone(), v);
+            }
+        }
+        img.special = special;
         Ok(img)
     }
 
@@ -174,6 +211,8 @@ pub enum Decision {
     /// a wait with a deadline (`recv_timeout`) found nothing to receive: does the deadline pass
     /// before any other thread makes progress (a stalled machine), or does the wait block?
     Timeout { fired: bool },
+    /// an optional external tool (`rustfmt`) is asked for: is it installed on this machine?
+    Program { name: String, available: bool },
 }
 
 pub const NO_DEVIATION: u32 = u32::MAX;
@@ -188,6 +227,7 @@ impl Decision {
             Decision::Sched { task, .. } => *task == NO_DEVIATION,
             Decision::Cores { n } => *n == DEFAULT_CORES,
             Decision::Timeout { fired } => !*fired,
+            Decision::Program { available, .. } => *available,
         }
     }
     pub fn defaulted(&self) -> Decision {
@@ -212,6 +252,10 @@ impl Decision {
             },
             Decision::Cores { .. } => Decision::Cores { n: DEFAULT_CORES },
             Decision::Timeout { .. } => Decision::Timeout { fired: false },
+            Decision::Program { name, .. } => Decision::Program {
+                name: name.clone(),
+                available: true,
+            },
         }
     }
     /// scheduling deviations live in their own stream (keyed by step), `Open` decisions are keyed
@@ -242,6 +286,9 @@ pub enum DirMode {
     Shuffle,
     /// k entries moved to the front (or back) of a sorted / shuffled base order
     Spotlight { k: u32, front: bool, shuffled: bool },
+    /// k entries (half of the time from the directory's stand-out entries) made adjacent, in a
+    /// random order, at a random position of a sorted / shuffled base order
+    Cluster { k: u32, shuffled: bool },
     /// sorted with a few random adjacent transpositions
     NearSorted { swaps: u32 },
     /// sorted, rotated by a random offset
@@ -274,6 +321,8 @@ pub struct Profile {
     pub stall: bool,
     /// short writes / EINTR on output streams
     pub out_io: bool,
+    /// Spotlight / Cluster pick their entries from the directory's stand-out entries
+    pub biased: bool,
 }
 
 impl Profile {
@@ -286,6 +335,7 @@ impl Profile {
         sched: SchedMode::Default,
         stall: false,
         out_io: false,
+        biased: false,
     };
 
     /// Swarm-style: every run draws its own mix.
@@ -304,6 +354,7 @@ impl Profile {
             },
             _ => DirMode::Rotated,
         };
+        // (the Cluster profile is drawn from the auxiliary stream, see draw_aux)
         let hash = match rng.below(8) {
             0 => HashMode::Zero,
             1..=2 => HashMode::Shared(rng.next_u64(), rng.next_u64()),
@@ -320,6 +371,7 @@ impl Profile {
             sched: SchedMode::Default,
             stall: false,
             out_io: false,
+            biased: false,
         }
     }
 
@@ -338,6 +390,14 @@ impl Profile {
         };
         self.stall = aux.chance(1, 3);
         self.out_io = aux.chance(1, 2);
+        // one run in five trades its directory profile for a cluster of adjacent entries
+        if aux.chance(1, 5) {
+            self.dir = DirMode::Cluster {
+                k: 2 + aux.below(3) as u32,
+                shuffled: aux.chance(1, 2),
+            };
+        }
+        self.biased = aux.chance(1, 2);
     }
 
     /// member `j` of the deterministic adjacency-covering batch
@@ -354,6 +414,7 @@ impl Profile {
             sched: SchedMode::Default,
             stall: false,
             out_io: false,
+            biased: false,
         }
     }
 
@@ -368,6 +429,7 @@ impl Profile {
                 if front { "front" } else { "back" },
                 if shuffled { "shuffled" } else { "sorted" }
             ),
+            DirMode::Cluster { k, shuffled } => format!("dir=cluster(k={},{})", k, if shuffled { "shuffled" } else { "sorted" }),
             DirMode::NearSorted { swaps } => format!("dir=nearsorted({})", swaps),
             DirMode::Rotated => "dir=rotated".to_string(),
             DirMode::Cover { index, reverse } => format!("dir=cover({}{})", index, if reverse { ",rev" } else { "" }),
@@ -395,6 +457,7 @@ impl Profile {
             DirMode::Reverse => "reverse",
             DirMode::Shuffle => "shuffle",
             DirMode::Spotlight { .. } => "spotlight",
+            DirMode::Cluster { .. } => "cluster",
             DirMode::NearSorted { .. } => "nearsorted",
             DirMode::Rotated => "rotated",
             DirMode::Cover { .. } => "cover",
@@ -535,6 +598,8 @@ pub struct RunStats {
     pub prints_after_exit: u64,
     pub clock_reads: u64,
     pub shuttle_runs: u64,
+    pub programs_spawned: u64,
+    pub programs_missing: u64,
 }
 
 impl RunStats {
@@ -569,6 +634,8 @@ impl RunStats {
         self.prints_after_exit += o.prints_after_exit;
         self.clock_reads += o.clock_reads;
         self.shuttle_runs += o.shuttle_runs;
+        self.programs_spawned += o.programs_spawned;
+        self.programs_missing += o.programs_missing;
     }
 }
 
@@ -620,6 +687,11 @@ pub struct World {
     pub exit_code: Option<i32>,
     /// set by the scheduler when the current task yields: can any other task run?
     pub yield_probe: Option<bool>,
+    /// this run executes under the thread scheduler
+    pub under_shuttle: bool,
+    /// the program asked for an external tool that this simulated machine does not have: a
+    /// fail-stop afterwards is not judged
+    pub missing_program: bool,
 }
 
 thread_local! {
@@ -682,6 +754,8 @@ impl World {
             stdout_eintr: 0,
             exit_code: None,
             yield_probe: None,
+            under_shuttle: false,
+            missing_program: false,
         }
     }
 
@@ -699,7 +773,23 @@ impl World {
 
     pub fn decide_read_dir(&mut self, path: &str, n: usize) -> Vec<u32> {
         let order: Vec<u32> = match &mut self.mode {
-            Mode::Random { rng, profile, .. } => gen_dir_order(rng, profile.dir, n),
+            Mode::Random { rng, aux, profile } => {
+                let special: &[u32] = if profile.biased {
+                    self.image.special.get(path).map(|v| v.as_slice()).unwrap_or(&[])
+                } else {
+                    &[]
+                };
+                match profile.dir {
+                    // drawn from the auxiliary stream: the main stream's draws stay what they were
+                    DirMode::Cluster { .. } => gen_dir_order(aux, profile.dir, n, special),
+                    DirMode::Spotlight { .. } if !special.is_empty() => {
+                        // same main-stream consumption as the unbiased spotlight, then re-pick
+                        let base = gen_dir_order(rng, profile.dir, n, &[]);
+                        respotlight(aux, base, profile.dir, special)
+                    }
+                    _ => gen_dir_order(rng, profile.dir, n, &[]),
+                }
+            }
             Mode::Replay(ReplayPlan { q, .. }) => match q.front() {
                 Some(Decision::ReadDir { path: p, order }) if p == path && order.len() == n => {
                     let o = order.clone();
@@ -885,6 +975,35 @@ impl World {
         fired
     }
 
+    /// Is the optional external tool `name` installed on this simulated machine?
+    pub fn decide_program(&mut self, name: &str) -> bool {
+        let available = match &mut self.mode {
+            Mode::Random { aux, profile, .. } => profile.cover_iter.is_some() || !aux.chance(1, 4),
+            Mode::Replay(ReplayPlan { q, .. }) => match q.front() {
+                Some(Decision::Program { available, .. }) => {
+                    let a = *available;
+                    q.pop_front();
+                    a
+                }
+                _ => {
+                    self.diverged = true;
+                    true
+                }
+            },
+        };
+        self.stats.programs_spawned += 1;
+        if !available {
+            self.stats.programs_missing += 1;
+            self.missing_program = true;
+        }
+        self.event("program", available as u64, 0);
+        self.trace.push(Decision::Program {
+            name: name.to_string(),
+            available,
+        });
+        available
+    }
+
     /// Simulated wall clock: strictly increasing, advanced by a seeded amount per read.
     pub fn read_clock(&mut self) -> u64 {
         let step = match &mut self.mode {
@@ -990,7 +1109,28 @@ impl World {
     }
 }
 
-pub fn gen_dir_order(rng: &mut Rng, mode: DirMode, n: usize) -> Vec<u32> {
+/// Replace the entries a spotlight order moved to the front/back by stand-out entries.
+fn respotlight(aux: &mut Rng, base: Vec<u32>, mode: DirMode, special: &[u32]) -> Vec<u32> {
+    let DirMode::Spotlight { k, front, .. } = mode else { return base };
+    let k = (k as usize).min(base.len()).min(special.len());
+    let mut picks: Vec<u32> = vec![];
+    while picks.len() < k {
+        let c = special[aux.below(special.len() as u64) as usize];
+        if !picks.contains(&c) {
+            picks.push(c);
+        }
+    }
+    let mut rest: Vec<u32> = base.into_iter().filter(|x| !picks.contains(x)).collect();
+    if front {
+        picks.extend(rest);
+        picks
+    } else {
+        rest.extend(picks);
+        rest
+    }
+}
+
+pub fn gen_dir_order(rng: &mut Rng, mode: DirMode, n: usize, special: &[u32]) -> Vec<u32> {
     let mut v: Vec<u32> = (0..n as u32).collect();
     if n < 2 {
         return v;
@@ -1014,6 +1154,29 @@ pub fn gen_dir_order(rng: &mut Rng, mode: DirMode, n: usize) -> Vec<u32> {
                 v = picked;
             } else {
                 v.extend(picked);
+            }
+        }
+        DirMode::Cluster { k, shuffled } => {
+            if shuffled {
+                rng.shuffle(&mut v);
+            }
+            let k = (k as usize).min(n);
+            let mut picked: Vec<u32> = vec![];
+            while picked.len() < k {
+                // each member: a stand-out entry half of the time (when the directory has any)
+                let c = if !special.is_empty() && rng.chance(1, 2) {
+                    special[rng.below(special.len() as u64) as usize]
+                } else {
+                    rng.below(n as u64) as u32
+                };
+                if !picked.contains(&c) {
+                    picked.push(c);
+                }
+            }
+            v.retain(|x| !picked.contains(x));
+            let at = rng.below(v.len() as u64 + 1) as usize;
+            for (j, p) in picked.into_iter().enumerate() {
+                v.insert(at + j, p);
             }
         }
         DirMode::NearSorted { swaps } => {
